@@ -380,7 +380,7 @@ func genGbRecordN(rng *rand.Rand, fixedN, maxSeq, maxFeats int) (lines []string,
 		lines = append(lines, "LOCUS       "+lc.Name+"  "+lc.Len+" bp  "+lc.Mol+"  "+lc.Topo+"  "+lc.Div+"  "+lc.Date)
 	}
 	txt := func(ws []string) string { return strings.Join(ws, " ") }
-	def := wordsN(rng, 1+rng.Intn(30), ",.;:()-")
+	def := wordsN(rng, 1+rng.Intn(30), ",.;:()-%&#@!?*+[]{}|~^$<>")
 	acc, ver, kws := wordsN(rng, 1+rng.Intn(2), ""), wordsN(rng, 1+rng.Intn(2), ".:"), wordsN(rng, 1+rng.Intn(5), ";.")
 	if rng.Intn(3) == 0 { // the classic NCBI VERSION line: two blanks between the version and the GI number (a short
 		// line that no writer wraps: runs of blanks at a wrap point cannot be represented)
